@@ -147,6 +147,17 @@ def gen_rounding_steered(rng):
             "smallcap": None, "via": "direct", "family": "rounding-steered"}
 
 
+def gen_pipeline(rng):
+    """uniform compositions through the real estimate_importances_minibatches over a csv file (>= 2 columns: a lone empty
+    cell is an empty csv line)"""
+    n = rng.choice([4, 6, 8, 12])
+    sp = [[k] * (n // k) for k in range(1, n + 1) if n % k == 0]
+    c = make_case(rng, n, rng.randint(2, 4), sp, "pipeline", via="pipeline")
+    c["cols"] = ["f%d" % j for j in range(len(c["cols"]))]
+    c["rows"] = [[v.replace(",", ";") for v in r] for r in c["rows"]]
+    return c
+
+
 def fixed_cases():
     a4 = [["a"], ["a"], ["a"], ["b"], ["a"], ["b"], ["c"]]
     out = [
@@ -179,9 +190,9 @@ def generate(run):
     rng = run.rng
     cases = fixed_cases()
     if run.tier == "quick":
-        plan = dict(small=120, nmax=5, medium=90, nsplits=7, smallcap=25, big=6, steered=60)
+        plan = dict(small=120, nmax=5, medium=90, nsplits=7, smallcap=25, big=6, steered=60, pipeline=25)
     else:
-        plan = dict(small=400, nmax=6, medium=300, nsplits=14, smallcap=80, big=30, steered=200)
+        plan = dict(small=900, nmax=6, medium=600, nsplits=14, smallcap=160, big=40, steered=400, pipeline=200)
     for _ in range(plan["small"]):
         cases.append(gen_small(rng, plan["nmax"]))
     for _ in range(plan["medium"]):
@@ -192,6 +203,8 @@ def generate(run):
         cases.append(gen_rounding_big(rng))
     for _ in range(plan["steered"]):
         cases.append(gen_rounding_steered(rng))
+    for _ in range(plan["pipeline"]):
+        cases.append(gen_pipeline(rng))
     return cases
 
 
@@ -241,12 +254,16 @@ def sub_case(case, split_idx):
     return c
 
 
+EXTRACT = {"error": None}
+
+
 def evaluate(cases, stats=None):
     """Returns (problems per case, info per case).  A problem = dict(clause, obligation, splits, impl, model)."""
     outdir = os.path.join(vlib.CACHE, "c13_out_%d" % os.getpid())
     res = vlib.run_impl("impl_c13.py", {"cases": cases, "outdir": outdir})
     if res.get("extract_error"):
-        raise vlib.Broken("translator:task_ranking annotation/histogram statements", res["extract_error"])
+        # observation point lost: the runner fell back to replicated statements; keep searching for a failing input
+        EXTRACT["error"] = res["extract_error"]
     results = res["results"]
     problems = [[] for _ in cases]
     infos = [dict() for _ in cases]
@@ -544,6 +561,11 @@ def check(run, replay):
         run.violation("counterexample", "C13_card_exact", case=next(c for c, i in zip(cases, infos) if i and not i.get("injective", True)),
                       impl="internal_hash collides on the values of %d of %d tables" % (collisions, len(cases)), model=None,
                       clause="cardinality exact up to 32-bit hash collisions: collisions far above the 32-bit rate")
+    run.oblige("translator:annotation and value_repetitions statements of task_ranking.py located and executed",
+               EXTRACT["error"] is None, EXTRACT["error"] or "")
+    if EXTRACT["error"] and not run.violations:
+        run.violation("broken-obligation", "translator:task_ranking annotation/histogram statements", found_input=False,
+                      extra=EXTRACT["error"] + " (replicated statements used instead; no failing input found with them)")
     run.oblige("correspondence:statistics of every history = model = specification of the concatenation", nviol == 0,
                "" if nviol == 0 else "%d disagreements" % nviol)
     run.oblige("correspondence:split independence observed on the implementation", "C13_split_indep" not in seen_obl)
